@@ -1,4 +1,4 @@
-//go:build !skip_c17
+//go:build !skip_c17_keyhist
 
 package main
 
